@@ -614,33 +614,37 @@ func selfCallLemmas(prog *Program) []*lemmaQuery {
 func bodyNameLemmas(prog *Program) []*lemmaQuery {
 	except := map[string]string{"Description": "desc"}
 	var out []*lemmaQuery
-	pkg := "internal/app/subsystems/api/http"
-	pp := prog.ppkg[repoModule+"/"+pkg]
-	if pp == nil || pp.Types == nil {
-		return []*lemmaQuery{structural("the http package is loaded", pkg, false, "package not found")}
-	}
-	scope := pp.Types.Scope()
-	for _, name := range scope.Names() {
-		tn, ok := scope.Lookup(name).(*types.TypeName)
-		if !ok {
+	// the request bodies of the http package, and the resources it renders (the same structs are what a client
+	// reads back: two fields tagged with one key are both dropped by encoding/json)
+	for _, pkg := range []string{"internal/app/subsystems/api/http", "pkg/promise", "pkg/schedule", "pkg/task", "pkg/lock", "pkg/callback"} {
+		pp := prog.ppkg[repoModule+"/"+pkg]
+		if pp == nil || pp.Types == nil {
+			out = append(out, structural("package "+pkg+" is loaded", pkg, false, "package not found"))
 			continue
 		}
-		st, ok := tn.Type().Underlying().(*types.Struct)
-		if !ok {
-			continue
-		}
-		for i := 0; i < st.NumFields(); i++ {
-			js, has := reflect.StructTag(st.Tag(i)).Lookup("json")
-			if !has || js == "-" {
+		scope := pp.Types.Scope()
+		for _, name := range scope.Names() {
+			tn, ok := scope.Lookup(name).(*types.TypeName)
+			if !ok {
 				continue
 			}
-			f := st.Field(i).Name()
-			want := strings.ToLower(f[:1]) + f[1:]
-			if e, ok := except[f]; ok {
-				want = e
+			st, ok := tn.Type().Underlying().(*types.Struct)
+			if !ok {
+				continue
 			}
-			got := strings.Split(js, ",")[0]
-			out = append(out, structural(fmt.Sprintf("%s.%s is read from the JSON key %q of the request body", name, f, want), pkg+":"+name+"."+f, strings.EqualFold(got, want), st.Tag(i)))
+			for i := 0; i < st.NumFields(); i++ {
+				js, has := reflect.StructTag(st.Tag(i)).Lookup("json")
+				if !has || js == "-" {
+					continue
+				}
+				f := st.Field(i).Name()
+				want := strings.ToLower(f[:1]) + f[1:]
+				if e, ok := except[f]; ok {
+					want = e
+				}
+				got := strings.Split(js, ",")[0]
+				out = append(out, structural(fmt.Sprintf("%s.%s is read from / written to the JSON key %q", name, f, want), pkg+":"+name+"."+f, strings.EqualFold(got, want), st.Tag(i)))
+			}
 		}
 	}
 	return out
@@ -681,7 +685,7 @@ func scriptLemmas(prog *Program) []*lemmaQuery {
 func extraObligations(prog *Program, prop, tier string) []*lemmaQuery {
 	out := extraObligations0(prog, prop, tier)
 	switch prop {
-	case "C03", "C10", "C15", "C20":
+	case "C01", "C03", "C10", "C15", "C20":
 		out = append(out, bodyNameLemmas(prog)...)
 	}
 	switch prop {
